@@ -53,6 +53,20 @@ def make_source(rec):
     return a, x
 
 
+def make_pool(rec):
+    """Initial pool of a program: the source, plus (rec['leaves']) further
+    leaves of the same shape with other chunkings and other values."""
+    import dask_array as da
+
+    a, x = make_source(rec)
+    npool, dpool = [a], [x]
+    for k, ch in enumerate(rec.get("leaves", []), start=1):
+        b = a + (100 * k if a.dtype.kind != "b" else 0)
+        npool.append(b)
+        dpool.append(da.from_array(b, chunks=tuple(tuple(c) for c in ch)))
+    return npool, dpool
+
+
 def source_src(rec):
     shape = tuple(rec["shape"])
     dt = rec.get("dtype", "f8")
@@ -69,6 +83,9 @@ def source_src(rec):
         lines.append(f"for _i in {list(rec['nan'])!r}:\n    if _i < _f.size: _f[_i] = np.nan")
     lines.append(f"x0 = da.from_array(a, chunks={tuple(tuple(c) for c in rec['chunks'])!r})")
     lines.append("n0 = a")
+    for k, ch in enumerate(rec.get("leaves", []), start=1):
+        lines.append(f"n{k} = a + {100 * k}")
+        lines.append(f"x{k} = da.from_array(n{k}, chunks={tuple(tuple(c) for c in ch)!r})")
     return "\n".join(lines)
 
 
@@ -192,15 +209,29 @@ def build_program(case, upto=None):
     """Rebuild a recorded program.  Returns (pool_dask, pool_numpy)."""
     import dask_array as da
 
-    a, x = make_source(case["source"])
-    dpool, npool = [x], [a]
+    npool, dpool = make_pool(case["source"])
     for opname, idxs in case["steps"][: upto if upto is not None else len(case["steps"])]:
         op = OPS.BY_NAME[opname]
+        _set_ch(dpool, idxs)
         nv = op.numpy(*[npool[i] for i in idxs])
         dv = op.dask(da, *[dpool[i] for i in idxs])
         dpool.append(dv)
         npool.append(nv)
     return dpool, npool
+
+
+def _set_ch(dpool, idxs):
+    """Expose the operands' advertised chunks to block-layout dependent
+    NumPy references (mc/userfns.py: CH)."""
+    from mc import userfns
+
+    ch = []
+    for i in idxs:
+        try:
+            ch.append(dpool[i].chunks)
+        except Exception:
+            ch.append(None)
+    userfns.CH = ch
 
 
 def program_script(case, tail=""):
@@ -218,11 +249,13 @@ def program_script(case, tail=""):
     if case.get("config"):
         lines.append(f"dask.config.set({case['config']!r})")
     lines.append(source_src(case["source"]))
-    for k, (opname, idxs) in enumerate(case["steps"], start=1):
+    nl = len(case["source"].get("leaves", []))
+    for k, (opname, idxs) in enumerate(case["steps"], start=1 + nl):
         op = OPS.BY_NAME[opname]
         lines.append(f"x{k} = " + op.src([f"x{i}" for i in idxs], dask=True))
+        lines.append("uf.CH = [" + ", ".join(f"x{i}.chunks" for i in idxs) + "]")
         lines.append(f"n{k} = " + op.src([f"n{i}" for i in idxs], dask=False))
-    k = len(case["steps"])
+    k = len(case["steps"]) + nl
     lines.append(f"y, ref = x{k}, np.asarray(n{k})")
     lines.append(tail or "val = np.asarray(y.compute(scheduler='sync'))\nprint('dask :', val.shape, val.dtype, val)\nprint('numpy:', ref.shape, ref.dtype, ref)\nassert val.shape == ref.shape and np.allclose(val, ref, equal_nan=True), 'MISMATCH'")
     return "\n".join(lines) + "\n"
@@ -247,6 +280,8 @@ def minimal_path(ctx, fails_again):
     if len(steps) == 1:
         return opname
     op = OPS.BY_NAME[opname]
+    if "uf.CH" in op.nsrc:
+        return op_path(ctx.case)
     try:
         xs = [da.from_array(np.array(ctx.npool[i]), chunks=-1) for i in idxs]
         y = op.dask(da, *xs)
@@ -260,6 +295,8 @@ def minimal_path(ctx, fails_again):
 
 def prog_str(case):
     s = f"src{tuple(case['source']['shape'])}/{tuple(tuple(c) for c in case['source']['chunks'])}/{case['source'].get('dtype', 'f8')}"
+    for k, ch in enumerate(case["source"].get("leaves", []), start=1):
+        s += f" x{k}=leaf{tuple(tuple(c) for c in ch)}"
     for opname, idxs in case["steps"]:
         s += f" ; {opname}({','.join('x%d' % i for i in idxs)})"
     return s
@@ -294,10 +331,9 @@ class Explorer:
 
     def run(self):
         src = self.shard["source"]
-        a, x = make_source(src)
+        npool, dpool = make_pool(src)
         steps = []
-        dpool, npool = [x], [a]
-        keys = [structkey(x)]
+        keys = [structkey(d) for d in dpool]
         first = self.shard.get("first")
         if first is None:
             # depth-0 node itself is monitored once (by the shard with first=None)
@@ -328,6 +364,7 @@ class Explorer:
             if not op.applies(*nargs):
                 continue
             try:
+                _set_ch(dpool, idxs)
                 with np.errstate(all="ignore"):
                     nv = op.numpy(*nargs)
             except Exception:
@@ -457,10 +494,10 @@ def replay_program(case, monitor):
     failures are reproduced with the same signature the explorer gives."""
     import dask_array as da
 
-    a, x = make_source(case["source"])
-    dpool, npool = [x], [a]
+    npool, dpool = make_pool(case["source"])
     for k, (opname, idxs) in enumerate(case["steps"]):
         op = OPS.BY_NAME[opname]
+        _set_ch(dpool, idxs)
         with np.errstate(all="ignore"):
             nv = op.numpy(*[npool[i] for i in idxs])
         try:
